@@ -84,12 +84,20 @@ type caseSpec struct {
 	impostor bool   // stdlib SCRAM server that accepts any proof and forges the server signature
 	wrongCreds bool // the credential table says the pair is wrong (after normalisation)
 	addr     string // address to dial ("" = broker1:9092); a non-numeric port makes splitHostPortNumber fail
+	codeVal  int16  // failKind "code": the error code the broker puts in its answer (0 = the usual 35 / 33 / 58); negative codes exist (-1 UNKNOWN_SERVER_ERROR)
 	noLimit  bool   // Dialer only: no Timeout, no Deadline, and the caller's context has no deadline
 	tlsFail  bool   // the peer answers the ClientHello with something that is not TLS: the dial must fail and close its socket
 	tls      bool   // Dialer.TLS / Transport.TLS set: the fake broker sits behind TLS and notes what reaches its socket first
 }
 
 var errHung = errors.New("hung: the dial did not return within 2 s (its time limit was 400 ms)")
+
+func (c caseSpec) code(dflt int16) int16 {
+	if c.codeVal != 0 {
+		return c.codeVal
+	}
+	return dflt
+}
 
 func (c caseSpec) address() string {
 	if c.addr == "" {
@@ -274,8 +282,8 @@ func serve(conn net.Conn, c caseSpec, lg *connLog) {
 		}
 		if c.failAt == fmt.Sprintf("auth%d", round) {
 			if c.failKind == "code" && framed {
-				lg.addEnv("R:58:-:0")
-				conn.Write(reply(58, nil))
+				lg.addEnv(fmt.Sprintf("R:%d:-:0", c.code(58)))
+				conn.Write(reply(c.code(58), nil))
 				return false
 			}
 			if c.failKind == "neglen" && framed {
@@ -359,8 +367,8 @@ func serve(conn net.Conn, c caseSpec, lg *connLog) {
 			}
 			hs := rangeStr(c.hs) + ":" + rangeStr(c.au)
 			if c.failAt == "versions" && c.failKind == "code" {
-				res.ErrorCode = 35
-				lg.addEnv("V:35:" + hs)
+				res.ErrorCode = c.code(35)
+				lg.addEnv(fmt.Sprintf("V:%d:%s", res.ErrorCode, hs))
 			}
 			b, err := muxfake.Encode(0, h.Corr, res)
 			if err != nil {
@@ -387,7 +395,7 @@ func serve(conn net.Conn, c caseSpec, lg *connLog) {
 			lg.addJournal(fmt.Sprintf("hs:%d", h.Ver))
 			code := int16(0)
 			if c.failAt == "handshake" && c.failKind == "code" {
-				code = 33
+				code = c.code(33)
 			}
 			b, err := muxfake.Encode(h.Ver, h.Corr, &saslhandshake.Response{ErrorCode: code, Mechanisms: []string{"PLAIN", "SCRAM-SHA-256", "SCRAM-SHA-512"}})
 			if err != nil {
@@ -743,6 +751,22 @@ func main() {
 				}
 				cases = append(cases, caseSpec{path: path, hs: hs, au: hsChoices[0], mech: m, user: "bob", pass: "pw", srvUser: "bob", srvPass: "pw",
 					mechFail: -1, failAt: at, failKind: "silent", refSrv: "xdg"})
+			}
+		}
+	}
+	// error codes are signed: -1 UNKNOWN_SERVER_ERROR (e.g. the broker's credential back-end threw) at every step of the
+	// set-up, and a few other values; an answer that carries ANY non-zero code is a refusal
+	for _, path := range []string{"dialer", "transport"} {
+		for _, hs := range hsChoices {
+			for _, at := range []string{"versions", "handshake", "auth1", "auth2"} {
+				for _, cv := range []int16{-1, -32768, 1, 32767} {
+					m := "plain"
+					if at == "auth2" {
+						m = "steps"
+					}
+					cases = append(cases, caseSpec{path: path, hs: hs, au: hsChoices[0], mech: m, user: "bob", pass: "pw", srvUser: "bob", srvPass: "pw",
+						steps: 3, mechFail: -1, failAt: at, failKind: "code", codeVal: cv, refSrv: "xdg"})
+				}
 			}
 		}
 	}
